@@ -1,6 +1,6 @@
 (* C13 — reformatting with the Markdown renderer preserves the document.  PARTIAL: mechanism lemmas. *)
 From Coq Require Import ZArith List Bool Lia Arith.
-From Verif Require Import PyStr MdRender MdRenderGen.
+From Verif Require Import PyStr MdRender MdRenderGen Rx RxAnalysis RxSub RxSubProofs RxGen UnicodeGen Inline Block Doc MdDoc MdProofs Normalize NormalizeGen Entry.
 Import ListNotations.
 Local Open Scope nat_scope.
 
@@ -42,4 +42,46 @@ Qed.
 Example C13_fence_example : fenced_marker [(true, 3); (false, 4); (true, 5)] = (true, 6) /\ fenced_marker [(false, 3)] = (true, 3).
 Proof. split; reflexivity. Qed.
 
+(* ---- the reformatter on the model of the whole conversion (coq/Model/MdDoc.v: every method of MarkdownRenderer and the
+   shared list renderer over the core AST; tied by skeletons with constants, regenerated patterns and the Markdown
+   correspondence run of this check).  For EVERY document: reformatting drops and reorders no word character - the
+   letters and digits of all text, code and HTML leaves of the parsed document, in order, are a subsequence of the letters
+   and digits of the reformatted text (quoting, list indentation, the trimming patterns never touch them). ---- *)
+Definition parsed (hw : bool) (s : str) : res (list node * refs) :=
+  match block_cfg, inline_cfg_x false hw [] with
+  | Some CB, Some d => doc_parse_rf CB (fun rf => inline_cfg_or false hw rf d) (run_ops parse_norm_ops) s
+  | _, _ => Exn
+  end.
+Definition words_of (ast : list node) : str := flat_map (fun x => letters x) (flat_map node_leaves ast).
+
+Theorem C13_reformatting_keeps_every_word : forall hw s out, md_x hw s = Ok out ->
+  exists ast rf, parsed hw s = Ok (ast, rf) /\ subseq (words_of ast) (letters out).
+Proof.
+  intros hw s out H. unfold md_x in H. unfold parsed. destruct block_cfg as [CB|]; [|discriminate].
+  destruct (inline_cfg_x false hw []) as [d|]; [|discriminate]. unfold bind in H.
+  destruct (doc_parse_rf CB _ _ s) as [[ast rf]| |]; try discriminate. inversion H; subst out. exists ast, rf. split; [reflexivity|].
+  apply (md_doc_keeps_leaves U rx_renderers_markdown__quote_end_re rx_util__strip_end_re alnum); vm_compute; reflexivity.
+Qed.
+
+(* "> a1 *b2*" and "- `c3`" *)
+Example C13_words_not_vacuous :
+  match parsed false [62; 32; 97; 49; 32; 42; 98; 50; 42; 10; 10; 45; 32; 96; 99; 51; 96; 10]%Z with
+  | Ok (ast, _) => words_of ast = [97; 49; 98; 50; 99; 51]%Z
+  | _ => False
+  end.
+Proof. vm_compute. reflexivity. Qed.
+
+(* KNOWN FINDING indented-code-gains-newline as a theorem about the model: parsing "    code", reformatting, and parsing
+   again gives a code block with one more trailing newline *)
+Definition code_raws (ast : list node) : list str := flat_map (fun n => match n with NCode raw _ _ _ => [raw] | _ => [] end) ast.
+Example C13_indented_code_gains_newline_refuted :
+  match parsed false [32; 32; 32; 32; 99; 111; 100; 101; 10]%Z, md_x false [32; 32; 32; 32; 99; 111; 100; 101; 10]%Z with
+  | Ok (a, _), Ok out => match parsed false out with
+                         | Ok (a', _) => code_raws a = [[99; 111; 100; 101]%Z] /\ code_raws a' = [[99; 111; 100; 101; 10]%Z]
+                         | _ => False end
+  | _, _ => False
+  end.
+Proof. vm_compute. split; reflexivity. Qed.
+
 Print Assumptions C13_chosen_fence_is_not_closed_inside.
+Print Assumptions C13_reformatting_keeps_every_word.
